@@ -33,10 +33,17 @@ fn choices(ps: &PowerState, seed: u64) -> Vec<(FaultChoice, &'static str)> {
     // everything but the last un-synced write of each inode
     let but_last: Vec<u64> = per_inode.iter().map(|c| if *c == 0 { 0 } else { !(1u64 << (c - 1).min(63)) }).collect();
     out.push((FaultChoice { masks: but_last, tear: None, dir_prefix: ndir as u8 }, "last_unsynced_write_lost"));
+    // the last un-synced write of each file torn at the first / second sector boundary it crosses
+    let with_pending: Vec<usize> = per_inode.iter().enumerate().filter(|(_, c)| **c > 0).map(|(i, _)| i).collect();
+    for j in 0..2u16 {
+        for which in with_pending.iter().rev().take(2) {
+            out.push((FaultChoice { masks: all.clone(), tear: Some((*which as u8, j)), dir_prefix: ndir as u8 }, "last_unsynced_write_torn"));
+        }
+    }
     let mut m = Mix(seed);
     for _ in 0..2 {
         let masks: Vec<u64> = (0..n).map(|_| m.next()).collect();
-        let tear = if m.below(2) == 0 { Some((m.below(n as u64) as u8, m.below(16) as u16)) } else { None };
+        let tear = if m.below(2) == 0 && !with_pending.is_empty() { Some((with_pending[m.below(with_pending.len() as u64) as usize] as u8, m.below(16) as u16)) } else { None };
         let dir_prefix = m.below(ndir as u64 + 1) as u8;
         out.push((FaultChoice { masks, tear, dir_prefix }, "random_subset"));
     }
@@ -142,6 +149,10 @@ fn check_with(c: &Case, all_points: bool) -> CheckResult {
                             fails.push(Fail::new(format!("C03:partial-document-visible-after-power-loss-in-{kind}"), format!("{where_}: reopened memory shows {} frames: the returned calls' frames plus a strict prefix of the in-flight chunked document", s.frames.len())));
                             continue;
                         }
+                        if growth_in_call {
+                            fails.push(Fail::new("C03:damaged-after-power-loss-during-in-place-log-growth", format!("{where_}: the call in flight was growing the embedded log in place (data shifted without a staging copy); reopened memory shows {} frames, difference: {}", s.frames.len(), a.as_ref().and_then(|x| crash::ref_diff(x, s)).unwrap_or_default())));
+                            continue;
+                        }
                         let lost = a.as_ref().is_some_and(|a| s.frames.len() < a.frames.len());
                         let d1 = a.as_ref().and_then(|x| crash::ref_diff(x, s)).unwrap_or_default();
                         fails.push(Fail::new(
@@ -184,15 +195,15 @@ fn check_with(c: &Case, all_points: bool) -> CheckResult {
 }
 
 pub fn build(ctx: &Ctx) -> Vec<Box<dyn Arm>> {
-    ctx.rule("the recorded syscall logs of C02-style histories, replayed under a power-loss model: per inode the image as of its last fsync/fdatasync plus any subset of the writes / truncates issued since (the last survivor optionally torn at one of the 512-byte sector boundaries of the file it crosses), and for the directory the entries as of the last directory fsync plus a prefix of the creates / renames / unlinks issued since; crash points = every point between two API calls (where every returned call is owed) and a third of the points inside calls; per point 6 fault choices (nothing un-synced survives; only directory operations; only data; everything but the last write of each file; 2 generated subsets with tears); oracle: the file opens and shows the reference state after the returned calls or the one including the in-flight call; non-trivial = at least one un-synced operation dropped or torn and at least one call had returned");
+    ctx.rule("the recorded syscall logs of C02-style histories, replayed under a power-loss model: per inode the image as of its last fsync/fdatasync plus any subset of the writes / truncates issued since (the last survivor optionally torn at one of the 512-byte sector boundaries of the file it crosses), and for the directory the entries as of the last directory fsync plus a prefix of the creates / renames / unlinks issued since; crash points = every point between two API calls (where every returned call is owed) and a third of the points inside calls; per point up to 10 fault choices (nothing un-synced survives; only directory operations; only data; everything but the last write of each file; the last write of a file torn at the first / second sector boundary; 2 generated subsets with tears); oracle: the file opens and shows the reference state after the returned calls or the one including the in-flight call; non-trivial = at least one un-synced operation dropped or torn and at least one call had returned");
     ctx.assume("fsync(fd) makes all earlier writes and the size of that inode durable; un-synced writes may persist in any subset; directory operations persist in order; rename is atomic; fsync of a newly created file also makes its directory entry durable, as on ext4 / xfs / btrfs (the ALICE / CrashMonkey model, weaker than ext4 data=ordered, so a pass is meaningful)");
     let t = ctx.tier;
     ctx.rule("arm wrapped_log: a prefix of 5..8 put(8..20 KB)+commit cycles wraps the 64 KiB embedded log at least once (so stale record bytes lie behind the write head), optionally inside begin_batch with puts large enough to grow the log; crash points are then explored only in the 2..4 puts / commits that follow (every point inside them, with the same fault choices, tears included)");
     let wrapped = move || {
         (
-            prop::collection::vec((any::<u32>(), 8_000u32..20_000), 5..=8),
-            prop::bool::weighted(0.4),
-            prop::collection::vec(prop_oneof![4 => (any::<u32>(), prop_oneof![1u32..400, 400u32..6000, 20_000u32..45_000]).prop_map(|(seed, len)| Op::Put(crate::hist::PutSpec::simple(crate::gen::Payload::Blob { seed, len, kind: crate::gen::BlobKind::Random }, 9))), 1 => Just(Op::Commit)], 2..=4),
+            prop::collection::vec((any::<u32>(), 9_000u32..20_000), 6..=9),
+            prop::bool::weighted(0.5),
+            prop::collection::vec(prop_oneof![4 => (any::<u32>(), prop_oneof![600u32..2000, 2000u32..6000, 20_000u32..45_000]).prop_map(|(seed, len)| Op::Put(crate::hist::PutSpec::simple(crate::gen::Payload::Blob { seed, len, kind: crate::gen::BlobKind::Random }, 9))), 1 => Just(Op::Commit)], 2..=3),
             any::<u32>(),
         )
             .prop_map(|(prefix, batch, tail, fault_seed)| {
@@ -209,5 +220,5 @@ pub fn build(ctx: &Ctx) -> Vec<Box<dyn Arm>> {
                 Case { hist: CrashCase { dim: 1, ops }, fault_seed, phase: 0, explore_from_op }
             })
     };
-    vec![arm_with("wrapped_log", t.pick(16, 250), 8, t.pick(20, 60), wrapped, check_all_points), arm_with("power_loss", t.pick(40, 400), 8, t.pick(30, 80), move || (c02::case(t.pick(8, 30)), any::<u32>(), 0u8..3).prop_map(|(hist, fault_seed, phase)| Case { hist, fault_seed, phase, explore_from_op: 0 }), check)]
+    vec![arm_with("wrapped_log", t.pick(6, 300), 8, t.pick(6, 40), wrapped, check_all_points), arm_with("power_loss", t.pick(12, 400), 8, t.pick(6, 40), move || (c02::case(t.pick(8, 30)), any::<u32>(), 0u8..3).prop_map(|(hist, fault_seed, phase)| Case { hist, fault_seed, phase, explore_from_op: 0 }), check)]
 }
